@@ -7,6 +7,7 @@ package main
 import (
 	"encoding/json"
 	"fmt"
+	"os"
 	"sort"
 	"strings"
 	"time"
@@ -205,10 +206,16 @@ func runStatic(data json.RawMessage) vh.Verdict {
 				w = ingest.NewOverlayWorld(uw, bw)
 			}
 			exp = expState{Eff: c.Layered, Obs: c.LObs}
+		case "diff":
+			// C02: the compact world and the in-memory world built from the same source give the same answers
+			return
 		default:
 			err = fmt.Errorf("unknown impl %q", c.Impl)
 		}
 	})
+	if c.Impl == "diff" {
+		return runDiff(&c, cm, cores)
+	}
 	if !built {
 		return vh.Verdict{OK: false, Key: cm.class + ":build:hang", Msg: "build did not finish within 60 s"}
 	}
@@ -238,6 +245,130 @@ func runStatic(data json.RawMessage) vh.Verdict {
 	v := vh.Verdict{OK: len(relevant) == 0, Stats: map[string]int{"worlds_built": 1}}
 	if len(relevant) > 0 {
 		sort.SliceStable(relevant, func(i, j int) bool { return relevant[i].Key < relevant[j].Key })
+		v.Key = relevant[0].Key
+		v.Msg = fmt.Sprintf("[%s] %s", relevant[0].Section, relevant[0].Msg)
+		seen := map[string]bool{}
+		var ms []mismatch
+		for _, m := range relevant {
+			if !seen[m.Key] {
+				seen[m.Key] = true
+				ms = append(ms, m)
+			}
+		}
+		v.Obs = map[string]interface{}{"mismatches": ms}
+	}
+	return v
+}
+
+// trybuild: vh-world trybuild <impl> <cores> < world.json -- builds one abstract world and prints its observation
+func tryBuild(args []string) int {
+	var w obs.AWorld
+	if err := json.NewDecoder(os.Stdin).Decode(&w); err != nil {
+		fmt.Println("bad input:", err)
+		return 2
+	}
+	cores := 1
+	if len(args) > 1 {
+		fmt.Sscan(args[1], &cores)
+	}
+	var bw b6.World
+	var err error
+	done := obs.WithDeadline(20*time.Second, func() {
+		switch args[0] {
+		case "basic":
+			bw, err = buildBasicFromSource(w, cores)
+		case "compact":
+			bw, err = buildCompactWorld(w, cores)
+		}
+	})
+	if !done {
+		fmt.Println("HANG: build did not finish within 20 s")
+		return 1
+	}
+	if err != nil {
+		fmt.Println("build error:", err)
+		return 1
+	}
+	var ids []string
+	for n := range w {
+		ids = append(ids, n)
+	}
+	sort.Strings(ids)
+	o := obs.Observe(bw, ids, obs.Options{Keys: []string{"#s", "@t", "n"}, Refs: true, Each: true})
+	b, _ := json.Marshal(o)
+	fmt.Println(string(b))
+	return 0
+}
+
+// runDiff builds the source as a basic world and as a compact world and compares every read query (real vs real).
+func runDiff(c *staticCase, cm *comparer, cores int) vh.Verdict {
+	src := withoutCollections(c.Src)
+	var bw, cw b6.World
+	var err1, err2 error
+	if !obs.WithDeadline(60*time.Second, func() {
+		bw, err1 = buildBasicFromSource(src, cores)
+		cw, err2 = buildCompactWorld(src, cores)
+	}) {
+		return vh.Verdict{OK: false, Key: "diff:build:hang", Msg: "build did not finish within 60 s"}
+	}
+	if err1 != nil || err2 != nil {
+		return vh.Verdict{OK: false, Key: "diff:build:error", Msg: fmt.Sprintf("build failed: basic %v compact %v", err1, err2)}
+	}
+	opts := obs.Options{Keys: c.Keys, Queries: c.Queries, Refs: true, Each: true, Traverse: true, EachCores: cores}
+	var a, b obs.Observation
+	if !obs.WithDeadline(30*time.Second, func() { a = obs.Observe(bw, c.IDs, opts); b = obs.Observe(cw, c.IDs, opts) }) {
+		return vh.Verdict{OK: false, Key: "diff:observe:hang", Msg: "observation did not finish within 30 s"}
+	}
+	add := func(section, what, msg string) {
+		cm.out = append(cm.out, mismatch{Step: -1, Section: section, Key: "diff:" + section + ":" + what, Msg: msg})
+	}
+	for _, n := range c.IDs {
+		if d := diffFeature(n, a.Features[n], b.Features[n]); d != "" {
+			add("lookup", d, fmt.Sprintf("lookup %s: basic %s compact %s", n, obs.Canon(a.Features[n]), obs.Canon(b.Features[n])))
+		}
+	}
+	if d := listDiff(a.Each, b.Each); d != "" {
+		add("each", d, fmt.Sprintf("EachFeature: basic %v compact %v", a.Each, b.Each))
+	}
+	for _, qn := range vh.SortedKeys(a.Search) {
+		if d := listDiff(a.Search[qn], b.Search[qn]); d != "" {
+			add("search", qkind(qn)+":"+d, fmt.Sprintf("FindFeatures %s: basic %v compact %v", qn, a.Search[qn], b.Search[qn]))
+		}
+	}
+	for _, sec := range []struct {
+		name string
+		a, b map[string][]string
+	}{{"refs", a.Refs, b.Refs}, {"areas", a.Areas, b.Areas}, {"rels", a.Rels, b.Rels}, {"traverse", a.Traverse, b.Traverse}} {
+		for _, n := range c.IDs {
+			if _, ok := sec.a[n]; !ok {
+				continue
+			}
+			if d := listDiff(sec.a[n], sec.b[n]); d != "" {
+				if sec.name == "traverse" {
+					d = "differs"
+				}
+				add(sec.name, "of-"+kindOfName(n)+":"+d, fmt.Sprintf("%s(%s): basic %v compact %v", sec.name, n, sec.a[n], sec.b[n]))
+			}
+		}
+	}
+	for _, p := range append(append([]string{}, a.Problems...), b.Problems...) {
+		fields := strings.Fields(p)
+		if len(fields) > 3 {
+			fields = fields[:3]
+		}
+		add("problems", strings.Join(fields, "_"), p)
+	}
+	var relevant []mismatch
+	for _, m := range cm.out {
+		for _, p := range c.Sections {
+			if strings.HasPrefix(m.Section, p) {
+				relevant = append(relevant, m)
+				break
+			}
+		}
+	}
+	v := vh.Verdict{OK: len(relevant) == 0, Stats: map[string]int{"worlds_built": 2}}
+	if len(relevant) > 0 {
 		v.Key = relevant[0].Key
 		v.Msg = fmt.Sprintf("[%s] %s", relevant[0].Section, relevant[0].Msg)
 		seen := map[string]bool{}
